@@ -52,6 +52,7 @@ DefStream ==
      hdrPending |-> FALSE,  \* send_request accepted, HEADERS not yet on the wire
      inAfterRst |-> FALSE,  \* a DATA/HEADERS frame of the peer was handed to E after E's RST_STREAM (it raced with it)
      wantBeforeOpen |-> FALSE, \* the application reset the stream before its HEADERS were on the wire
+     peerBad |-> FALSE,     \* the peer sent stream frames after its own RST_STREAM (its violation; E may react)
      inSince |-> 0, inNeed |-> 2]  \* frames handed to E since the cause of a reset (the application's call, else the stream's
                             \* first frame); >= inNeed of them means some raced with E's RST_STREAM still sitting in its codec
 
@@ -123,7 +124,7 @@ OutLife(m, f, l) ==
                         THEN "stream_closed_for_late_frame_on_forgotten_stream" ELSE ty)
               ELSE IF x.o = "es"
               THEN Check(m3, "C04.after_es", ty \in {"WINDOW_UPDATE", "RST_STREAM"}, l, s, ty)
-              ELSE IF x.rstBound
+              ELSE IF x.rstBound /\ ~(x.peerBad /\ ty = "RST_STREAM")
               THEN Viol(Hit(m3, "C04.after_rst_in"), "C04.after_rst_in", l, s, ty)
               ELSE m3
         m5 == IF ty = "DATA" /\ x.o \notin {"rst", "es"}
@@ -235,7 +236,7 @@ OutResets(m, f, l) ==
                               IF f.ch = 0 /\ f.cl = STREAM_CLOSED /\ x.inAfterRst
                               THEN "stream_closed_for_late_frame_on_forgotten_stream" ELSE "second RST_STREAM")
                    ELSE m
-             m2 == IF x.i = "rst" /\ x.rstBound
+             m2 == IF x.i = "rst" /\ x.rstBound /\ ~x.peerBad
                    THEN Viol(Hit(m1, "C17.rst_for_rst"), "C17.rst_for_rst", l, s, "RST_STREAM in response to RST_STREAM")
                    ELSE m1
              \* code expected by an application request made before
@@ -314,6 +315,7 @@ StepIn(m, f, l) ==
     LET s  == f.sid
         x0 == S(m, s)
         x  == [x0 EXCEPT !.inAny = TRUE, !.inSince = x0.inSince + 1,
+                         !.peerBad = x0.peerBad \/ (x0.i = "rst" /\ f.ty \in {"DATA", "HEADERS", "CONTINUATION", "PUSH_PROMISE"}),
                          !.inAfterRst = x0.inAfterRst \/ (x0.rstOut > 0 /\ f.ty \in {"DATA", "HEADERS", "CONTINUATION", "WINDOW_UPDATE"})]
         ty == f.ty
         ok == f.bad = ""
